@@ -22,8 +22,9 @@ CODES = {1: "matrix handed to the SVD is not b*(B+R)+G G^T of the previous state
          4: "stored directions are not orthonormal-or-zero",
          5: "negative eigenvalue or escaped mass",
          6: "bracket V l V' <= C <= V l V' + t I fails against the exact covariance",
-         7: "stored inverse roots are not (l + t + eps)^(-1/p)"}
-PROPERTY_CODES = (3, 4, 5, 6, 7)
+         7: "stored inverse roots are not (l + t + eps)^(-1/p)",
+         8: "escaped mass exceeds its budget (k+1) t <= tr C - sum l (t does not follow t' = b t + r)"}
+PROPERTY_CODES = (3, 4, 5, 6, 7, 8)
 
 
 def q(x):
